@@ -230,22 +230,66 @@ theorem resetVal_noof {v : Value} {e : Err} (h : resetVal v = .error e) : NotOof
   unfold resetVal at h
   split at h <;> first | (cases h; done) | (simp only [err] at h; cases h; simp [NotOof]; done) | (cases h; simp [NotOof])
 
-/-- the failures of the statement semantics are never the out-of-budget marker -/
-structure NoOofAt (M : Machine) (obj : HostVal) (f : Nat) : Prop where
-  E : ∀ x env out e env' o, execE M obj f x env out = .failed e env' o → NotOof e
-  S : ∀ s env out e env' o, execS M obj f s env out = .failed e env' o → NotOof e
-  Ss : ∀ ss env out e env' o, execSs M obj f ss env out = .failed e env' o → NotOof e
-  I : ∀ idx x body it k env out e env' o, execIter M obj f idx x body it k env out = .failed e env' o → NotOof e
-  A : ∀ v cs env out e env' o, execArms M obj f v cs env out = .done (.failed e env' o) → NotOof e
-  R : ∀ v es b env out e env' o, execArm M obj f v es b env out = .done (.failed e env' o) → NotOof e
-  D : ∀ cs env out e env' o, execDefaults M obj f cs env out = .failed e env' o → NotOof e
+theorem callWith_noof (deep : Bool) (run : List Stmt → Env → Str → Outcome)
+    (hrun : ∀ b env out e env' o, run b env out = .failed e env' o → NotOof e)
+    (M : Machine) (F : FnTable) (obj : HostVal) (name : Str) (args : List Expr) (env : Env) (out : Str)
+    (e : Err) (env' : Env) (o : Str) (h : callWith deep run M F obj name args env out = .failed e env' o) : NotOof e := by
+  unfold callWith at h
+  cases hev : evalEs M obj env args out with
+  | mk res o1 =>
+    cases res with
+    | error x => simp only [hev, CallOut.failed.injEq] at h; rw [← h.1]; exact evalEs_noof M obj env args out x o1 hev
+    | ok vs =>
+      simp only [hev] at h
+      cases hl : lookupFn M name with
+      | some impl =>
+        simp only [hl] at h
+        generalize callImpl name impl vs = cr at h
+        cases hr : cr.res with
+        | panic => simp only [hr, CallOut.failed.injEq] at h; rw [← h.1]; simp [NotOof]
+        | unsupported => simp only [hr, CallOut.failed.injEq] at h; rw [← h.1]; simp [NotOof]
+        | val v => cases v <;> simp [hr] at h <;> (rw [← h.1]; simp [NotOof])
+      | none =>
+        simp only [hl] at h
+        cases hf : F.find name with
+        | none => simp only [hf, CallOut.failed.injEq] at h; rw [← h.1]; simp [NotOof]
+        | some sf =>
+          simp only [hf] at h
+          split at h
+          · simp only [CallOut.failed.injEq] at h; rw [← h.1]; simp [NotOof]
+          split at h
+          · simp only [CallOut.failed.injEq] at h; rw [← h.1]; simp [NotOof]
+          · generalize hb : run sf.body _ o1 = ob at h
+            cases ob with
+            | diverged => simp at h
+            | failed x e2 o2 => simp only [CallOut.failed.injEq] at h; rw [← h.1]; exact hrun _ _ _ _ _ _ hb
+            | returned v e2 o2 =>
+              simp only [callEnd] at h
+              split at h
+              · simp only [CallOut.failed.injEq] at h; rw [← h.1]; simp [NotOof]
+              · split at h <;> simp at h
+            | normal e2 o2 =>
+              simp only [callEnd] at h
+              split at h
+              · simp only [CallOut.failed.injEq] at h; rw [← h.1]; simp [NotOof]
+              · split at h <;> simp at h
 
-theorem exec_noof (M : Machine) (obj : HostVal) : ∀ f, NoOofAt M obj f
+/-- the failures of the statement semantics are never the out-of-budget marker -/
+structure NoOofAt (M : Machine) (F : FnTable) (obj : HostVal) (f : Nat) : Prop where
+  E : ∀ depth x env out e env' o, execE M F obj depth f x env out = .failed e env' o → NotOof e
+  S : ∀ depth s env out e env' o, execS M F obj depth f s env out = .failed e env' o → NotOof e
+  Ss : ∀ depth ss env out e env' o, execSs M F obj depth f ss env out = .failed e env' o → NotOof e
+  I : ∀ depth idx x body it k env out e env' o, execIter M F obj depth f idx x body it k env out = .failed e env' o → NotOof e
+  A : ∀ depth v cs env out e env' o, execArms M F obj depth f v cs env out = .done (.failed e env' o) → NotOof e
+  R : ∀ depth v es b env out e env' o, execArm M F obj depth f v es b env out = .done (.failed e env' o) → NotOof e
+  D : ∀ depth cs env out e env' o, execDefaults M F obj depth f cs env out = .failed e env' o → NotOof e
+
+theorem exec_noof (M : Machine) (F : FnTable) (obj : HostVal) : ∀ f, NoOofAt M F obj f
   | 0 => by constructor <;> intros <;> simp_all [execE, execS, execSs, execIter, execArms, execArm, execDefaults]
   | f + 1 => by
-    have ih := exec_noof M obj f
+    have ih := exec_noof M F obj f
     refine ⟨?_, ?_, ?_, ?_, ?_, ?_, ?_⟩
-    · intro x env out e env' o h
+    · intro depth x env out e env' o h
       cases x
       case «infix» op l r =>
         cases l <;> simp only [execE] at h
@@ -270,13 +314,36 @@ theorem exec_noof (M : Machine) (obj : HostVal) : ∀ f, NoOofAt M obj f
                     | error y => simp only [hb, Outcome.failed.injEq] at h; rw [← h.1]; exact binop_noof hb
                     | ok p => simp [hb] at h
         all_goals (simp only [Outcome.failed.injEq] at h; rw [← h.1]; simp [NotOof])
-      all_goals simp only [execE] at h
+      case funcDef n ps b => simp [execE] at h
+      case call fn args =>
+        simp only [execE] at h
+        generalize hc : callWith (decide (depth ≥ maxCallDepth)) (fun b e o => execSs M F obj (depth + 1) f b e o) M F obj fn.str args env out = co at h
+        cases co with
+        | value v e2 o2 => simp at h
+        | novalue e2 o2 => simp at h
+        | undefined => simp at h
+        | failed x e2 o2 =>
+          simp only [Outcome.failed.injEq] at h; rw [← h.1]
+          exact callWith_noof _ _ (fun b env out e env' o hb => ih.Ss _ b env out e env' o hb) M F obj _ _ _ _ _ _ _ hc
       case assign name v =>
+        by_cases hcall : ∃ fn args, v = .call fn args
+        · obtain ⟨fn, args, rfl⟩ := hcall
+          simp only [execE] at h
+          generalize hc : callWith (decide (depth ≥ maxCallDepth)) (fun b e o => execSs M F obj (depth + 1) f b e o) M F obj fn.str args env out = co at h
+          cases co with
+          | value v e2 o2 => simp at h
+          | novalue e2 o2 => simp at h
+          | undefined => simp at h
+          | failed x e2 o2 =>
+            simp only [Outcome.failed.injEq] at h; rw [← h.1]
+            exact callWith_noof _ _ (fun b env out e env' o hb => ih.Ss _ b env out e env' o hb) M F obj _ _ _ _ _ _ _ hc
+        rw [execE_assign depth f name v env out (fun fn args x => hcall ⟨fn, args, x⟩)] at h
         cases hv : evalE M obj env v out with
         | mk res o1 =>
           cases res with
           | ok y => simp [hv] at h
           | error y => simp only [hv, Outcome.failed.injEq] at h; rw [← h.1]; exact evalE_noof M obj env v out y o1 hv
+      all_goals simp only [execE] at h
       case ifE c cons alt =>
         cases hv : evalE M obj env c out with
         | mk res o1 =>
@@ -285,10 +352,10 @@ theorem exec_noof (M : Machine) (obj : HostVal) : ∀ f, NoOofAt M obj f
           | ok cv =>
             simp only [hv] at h
             split at h
-            · exact ih.Ss _ _ _ _ _ _ h
+            · exact ih.Ss _ _ _ _ _ _ _ h
             · cases alt with
               | none => simp at h
-              | some a => exact ih.Ss _ _ _ _ _ _ h
+              | some a => exact ih.Ss _ _ _ _ _ _ _ h
       case whileE c body =>
         cases hv : evalE M obj env c out with
         | mk res o1 =>
@@ -297,11 +364,11 @@ theorem exec_noof (M : Machine) (obj : HostVal) : ∀ f, NoOofAt M obj f
           | ok cv =>
             simp only [hv] at h
             split at h
-            · cases hb : execSs M obj f body env o1 with
-              | normal e2 o2 => simp only [hb] at h; exact ih.E _ _ _ _ _ _ h
+            · cases hb : execSs M F obj depth f body env o1 with
+              | normal e2 o2 => simp only [hb] at h; exact ih.E _ _ _ _ _ _ _ h
               | returned a b d => simp [hb] at h
               | diverged => simp [hb] at h
-              | failed a b d => simp only [hb, Outcome.failed.injEq] at h; rw [← h.1]; exact ih.Ss _ _ _ _ _ _ hb
+              | failed a b d => simp only [hb, Outcome.failed.injEq] at h; rw [← h.1]; exact ih.Ss _ _ _ _ _ _ _ hb
             · simp at h
       case foreachE idx x v body =>
         cases hv : evalE M obj env v out with
@@ -311,34 +378,45 @@ theorem exec_noof (M : Machine) (obj : HostVal) : ∀ f, NoOofAt M obj f
           | ok iv =>
             simp only [hv] at h
             cases hr : resetVal iv with
-            | ok it => simp only [hr] at h; exact ih.I _ _ _ _ _ _ _ _ _ _ h
+            | ok it => simp only [hr] at h; exact ih.I _ _ _ _ _ _ _ _ _ _ _ h
             | error y => simp only [hr, Outcome.failed.injEq] at h; rw [← h.1]; exact resetVal_noof hr
       case switchE v cs =>
-        cases ha : execArms M obj f v cs env out with
-        | done o2 => simp only [ha] at h; subst h; exact ih.A _ _ _ _ _ _ _ ha
-        | next e2 o2 => simp only [ha] at h; exact ih.D _ _ _ _ _ _ h
+        cases ha : execArms M F obj depth f v cs env out with
+        | done o2 => simp only [ha] at h; subst h; exact ih.A _ _ _ _ _ _ _ _ ha
+        | next e2 o2 => simp only [ha] at h; exact ih.D _ _ _ _ _ _ _ h
       all_goals (simp only [Outcome.failed.injEq] at h; rw [← h.1]; simp [NotOof])
-    · intro s env out e env' o h
+    · intro depth s env out e env' o h
       cases s with
-      | expr x => simp only [execS] at h; exact ih.E _ _ _ _ _ _ h
+      | expr x => simp only [execS] at h; exact ih.E _ _ _ _ _ _ _ h
       | ret x =>
-        simp only [execS] at h
+        by_cases hcall : ∃ fn args, x = .call fn args
+        · obtain ⟨fn, args, rfl⟩ := hcall
+          simp only [execS] at h
+          generalize hc : callWith (decide (depth ≥ maxCallDepth)) (fun b e o => execSs M F obj (depth + 1) f b e o) M F obj fn.str args env out = co at h
+          cases co with
+          | value v e2 o2 => simp at h
+          | novalue e2 o2 => simp at h
+          | undefined => simp at h
+          | failed y e2 o2 =>
+            simp only [Outcome.failed.injEq] at h; rw [← h.1]
+            exact callWith_noof _ _ (fun b env out e env' o hb => ih.Ss _ b env out e env' o hb) M F obj _ _ _ _ _ _ _ hc
+        rw [execS_ret depth f x env out (fun fn args y => hcall ⟨fn, args, y⟩)] at h
         cases hv : evalE M obj env x out with
         | mk res o1 =>
           cases res with
           | ok y => simp [hv] at h
           | error y => simp only [hv, Outcome.failed.injEq] at h; rw [← h.1]; exact evalE_noof M obj env x out y o1 hv
-    · intro ss env out e env' o h
+    · intro depth ss env out e env' o h
       cases ss with
       | nil => simp [execSs] at h
       | cons s rest =>
         simp only [execSs] at h
-        cases hb : execS M obj f s env out with
-        | normal e2 o2 => simp only [hb] at h; exact ih.Ss _ _ _ _ _ _ h
+        cases hb : execS M F obj depth f s env out with
+        | normal e2 o2 => simp only [hb] at h; exact ih.Ss _ _ _ _ _ _ _ h
         | returned a b d => simp [hb] at h
         | diverged => simp [hb] at h
-        | failed a b d => simp only [hb, Outcome.failed.injEq] at h; rw [← h.1]; exact ih.S _ _ _ _ _ _ hb
-    · intro idx x body it k env out e env' o h
+        | failed a b d => simp only [hb, Outcome.failed.injEq] at h; rw [← h.1]; exact ih.S _ _ _ _ _ _ _ hb
+    · intro depth idx x body it k env out e env' o h
       simp only [execIter] at h
       cases hn : iterNext it k with
       | none =>
@@ -349,26 +427,26 @@ theorem exec_noof (M : Machine) (obj : HostVal) : ∀ f, NoOofAt M obj f
       | some p =>
         obtain ⟨val, i⟩ := p
         simp only [hn] at h
-        generalize hb : execSs M obj f body (if idx.isEmpty then env.declare x val else (env.declare x val).declare idx i) out = ob at h
+        generalize hb : execSs M F obj depth f body (if idx.isEmpty then env.declare x val else (env.declare x val).declare idx i) out = ob at h
         cases ob with
-        | normal e2 o2 => exact ih.I _ _ _ _ _ _ _ _ _ _ h
+        | normal e2 o2 => exact ih.I _ _ _ _ _ _ _ _ _ _ _ h
         | returned a b d => simp at h
         | diverged => simp at h
-        | failed a b d => simp only [Outcome.failed.injEq] at h; rw [← h.1]; exact ih.Ss _ _ _ _ _ _ hb
-    · intro v cs env out e env' o h
+        | failed a b d => simp only [Outcome.failed.injEq] at h; rw [← h.1]; exact ih.Ss _ _ _ _ _ _ _ hb
+    · intro depth v cs env out e env' o h
       cases cs with
       | nil => simp [execArms] at h
       | cons c rest =>
         obtain ⟨isDef, es, b⟩ := c
         simp only [execArms] at h
         cases isDef with
-        | true => simp only [↓reduceIte] at h; exact ih.A _ _ _ _ _ _ _ h
+        | true => simp only [↓reduceIte] at h; exact ih.A _ _ _ _ _ _ _ _ h
         | false =>
           simp only [Bool.false_eq_true, ↓reduceIte] at h
-          cases ha : execArm M obj f v es b env out with
-          | done o2 => simp only [ha, ArmOut.done.injEq] at h; subst h; exact ih.R _ _ _ _ _ _ _ _ ha
-          | next e2 o2 => simp only [ha] at h; exact ih.A _ _ _ _ _ _ _ h
-    · intro v es b env out e env' o h
+          cases ha : execArm M F obj depth f v es b env out with
+          | done o2 => simp only [ha, ArmOut.done.injEq] at h; subst h; exact ih.R _ _ _ _ _ _ _ _ _ ha
+          | next e2 o2 => simp only [ha] at h; exact ih.A _ _ _ _ _ _ _ _ h
+    · intro depth v es b env out e env' o h
       cases es with
       | nil => simp [execArm] at h
       | cons x rest =>
@@ -399,23 +477,23 @@ theorem exec_noof (M : Machine) (obj : HostVal) : ∀ f, NoOofAt M obj f
                   obtain ⟨t, o3⟩ := p
                   simp only [hc] at h
                   split at h
-                  · simp only [ArmOut.done.injEq] at h; exact ih.Ss _ _ _ _ _ _ h
-                  · exact ih.R _ _ _ _ _ _ _ _ h
-    · intro cs env out e env' o h
+                  · simp only [ArmOut.done.injEq] at h; exact ih.Ss _ _ _ _ _ _ _ h
+                  · exact ih.R _ _ _ _ _ _ _ _ _ h
+    · intro depth cs env out e env' o h
       cases cs with
       | nil => simp [execDefaults] at h
       | cons c rest =>
         obtain ⟨isDef, es, b⟩ := c
         simp only [execDefaults] at h
         cases isDef with
-        | false => simp only [Bool.false_eq_true, ↓reduceIte] at h; exact ih.D _ _ _ _ _ _ h
+        | false => simp only [Bool.false_eq_true, ↓reduceIte] at h; exact ih.D _ _ _ _ _ _ _ h
         | true =>
           simp only [↓reduceIte] at h
-          generalize hb : execSs M obj f b env out = ob at h
+          generalize hb : execSs M F obj depth f b env out = ob at h
           cases ob with
-          | normal e2 o2 => exact ih.D _ _ _ _ _ _ h
+          | normal e2 o2 => exact ih.D _ _ _ _ _ _ _ h
           | returned a b2 d => simp at h
           | diverged => simp at h
-          | failed a b2 d => simp only [Outcome.failed.injEq] at h; rw [← h.1]; exact ih.Ss _ _ _ _ _ _ hb
+          | failed a b2 d => simp only [Outcome.failed.injEq] at h; rw [← h.1]; exact ih.Ss _ _ _ _ _ _ _ hb
 
 end EvalFilter.Exec
